@@ -708,7 +708,7 @@ def power(a, p):
         p = p.item0()
     if isinstance(p, (SInt, SFloat)) and smt.is_conc(p.t):
         p = p.t
-    if isinstance(p, float) and p == int(p):
+    if isinstance(p, float) and not isinstance(p, SFloat) and p == int(p):
         p = int(p)
     if isinstance(p, Fraction) and p.denominator == 1:
         p = int(p)
@@ -1174,9 +1174,10 @@ class _AtIndexed:
                 region.append(("fix", t))
         V = const_arr(v)
         _, (mv, _m2) = broadcast_shapes([V.shape, tuple(sub_shape)])
-        kind = _promote(A.kind, V.kind) if mode != "set" or True else A.kind
+        # jax casts the update to the dtype of the operand (scatter): a complex value written into a real array
+        # keeps its real part only (FutureWarning in the pinned jax), it does not promote the array
         if A.kind == "real" and V.kind == "complex":
-            raise OutsideSubset("complex value written into real array (jax would discard the imaginary part)")
+            V = SArr(V.shape, lambda idx, V=V: V.at_(idx).re, "real")
         kind = A.kind if KIND_RANK[A.kind] >= KIND_RANK[V.kind] else V.kind
 
         def fn(idx):
